@@ -622,6 +622,12 @@ def do_replay(run, path):
             raise Infra('replay harness failed: ' + str(err)[-2000:])
         mism, n = validate_shard(run, wd, doc['trace_module'], trace, [doc['property']])
         same = [m for m in mism if mismatch_key(m) == want]
+        if not same:
+            # the recorded details may depend on what the process did before (a buffer that keeps growing, a pooled object):
+            # a disagreement of the same property and the same diagnostic class, recurring when the case is executed again,
+            # is the same violation
+            cls = (doc['mismatch'].get('info') or ['?'])[0]
+            same = [m for m in mism if m['id'] == doc['mismatch']['id'] and (m.get('info') or ['?'])[0] == cls]
         if same:
             break
     return same, mism
